@@ -6,7 +6,7 @@ import ast
 from ..keval import KEval, Ref, Cond, Const, Top
 from ..poly import Poly, ZERO, ONE
 from ..forms import value_poly, real_guards, short, acc_name_of, is_full_range, scalar_resets
-from ..trav import check_slim_counter, counter_increments, counter_init_zero
+from ..trav import closed_forms, check_slim_counter, counter_increments, counter_init_zero
 from .. import wire, paths
 from ..model import norm_text, AnchorMissing
 from ..controls import Control
@@ -186,6 +186,8 @@ def flag_lists(ctx, p, K):
     check_slim_counter(ctx, "C01.order", S, cnt, ["mask_2d"], guard_ok=flag_guard, what="list")
     # the value recorded: the row-major flattened index of (y, x)
     v = value_poly(st.value)
+    if isinstance(v, Poly):
+        v = closed_forms(S, f, v, st.loops)   # (a per-row offset advanced by the row length is y * W)
     flat_formula = y * S_("mask_2d.shape[1]") + x
     ok = v == flat_formula
     det = short(v)
@@ -207,7 +209,12 @@ def flag_lists(ctx, p, K):
         incs = counter_increments(S, tc)
         good = len(incs) == 1 and incs[0][0] == ONE and len(incs[0][3]) == 2 and len(real_guards(incs[0][2])) == 1 and \
             flag_guard(real_guards(incs[0][2])[0], S_(incs[0][3][0].var), S_(incs[0][3][1].var)) and is_full_range(incs[0][3][0], [S_("mask_2d.shape[0]")]) and is_full_range(incs[0][3][1], [S_("mask_2d.shape[1]")])
-    ctx.ob(rule, key + ":size", good, where=f, node=f.node, construct=f"size counter {tc}", message="the list must be sized by counting the pixels that satisfy the same flag test over the whole mask")
+    if not good and shp and isinstance(shp[0], Poly):
+        # or by the counting routine itself (C01.count decides that total_pixels_2d_from counts the False entries of the whole mask it is given), handed the mask that
+        # is False exactly where the pixel matches the flag: `mask_2d != flag`
+        good = repr(shp[0]) in ("total_pixels_2d_from(bool((mask_2d != return_masked_indexes)))", "total_pixels_2d_from(bool((return_masked_indexes != mask_2d)))",
+                                "total_pixels_2d_from((mask_2d != return_masked_indexes))", "total_pixels_2d_from((return_masked_indexes != mask_2d))")
+    ctx.ob(rule, key + ":size", good, where=f, node=f.node, construct=f"size counter {tc}; shape {shp[0]!r}"[:200] if shp else f"size counter {tc}", message="the list must be sized by counting the pixels that satisfy the same flag test over the whole mask")
     # masked / unmasked lists are this one routine with the two flag values
     c = p.cls("autoarray.mask.derive.indexes_2d:DeriveIndexes2D")
     flags = {}
